@@ -158,7 +158,9 @@ def _needs_relink(
 ) -> bool:
     destination = meta.destination
     is_symlink = meta.is_link
-    is_hardlink = meta.nlink > 1
+    # nlink is the link count of what the path resolves to: a symlink into the
+    # cache is not a hardlink just because the object has other links
+    is_hardlink = meta.nlink > 1 and not is_symlink
     is_copy = not is_symlink and not is_hardlink
 
     for link_type in cache.cache_types:
